@@ -102,8 +102,10 @@ void podT(Case& c, bool alias, unsigned nops) {
       if (alias && !m.empty() && rng.below(3) == 0) {
         size_t i = rng.below(m.size());
         c.op("push_back-own-element", (long)i);
+        c.checking("pushed-value");
         a.push_back(a[i]); // std::vector::push_back(v[i]) is well defined
         m.push_back(m[i]);
+        c.eq("pushed-value", val(a[m.size() - 1]), m.back());
       } else {
         int v = c.nextVal();
         c.op("push_back", v);
@@ -622,7 +624,7 @@ void largeArrayT(Case& c, unsigned n, unsigned nops) {
 
 void run_PODResizeableArray(Case& c) {
   bool isInt    = c.rng.below(3) == 0;
-  bool alias    = c.rng.below(8) == 0;
+  bool alias    = c.rng.below(48) == 0;
   unsigned nops = c.pickOps();
   std::string cfg = std::string(isInt ? "int" : "pod") + (alias ? "|alias" : "");
   c.begin("PODResizeableArray", cfg,
